@@ -459,8 +459,8 @@ Proof.
     destruct ref; try phi_leaf.
     + destruct (is_nullsafe a); phi_leaf.
     + destruct (is_nullsafe a); phi_leaf.
-    + destruct oi as [i|]; [|phi_leaf]. destruct (i =? -1)%Z; [phi_leaf | apply IH].
-    + destruct k; [phi_leaf | apply IH].
+    + destruct oi as [i|]; [apply IH | phi_leaf].
+    + destruct oi as [i|]; [phi_leaf | apply IH].
 Qed.
 
 Lemma phi_print_dirs l : Phi (print_dirs cf w l).
@@ -604,7 +604,7 @@ Proof.
   - (* NSwitch *) phi_bind; [apply phi_eval | apply phi_switch_cases].
   - (* NCall *)
     destruct (find_template _ name) as [callee|]; [|phi_leaf].
-    phi_bind; [apply phi_call_data|]. phi_bind; [apply phi_call_params | apply phi_call_enter].
+    phi_bind; [apply phi_call_data|]. phi_bind; [apply phi_call_params |]. phi_bind; [phi_leaf | apply phi_call_enter].
   - (* NLetValue *) phi_bind; [apply phi_eval|]. phi_bind; phi_leaf.
   - (* NLetContent *) phi_bind; [apply phi_render_block|]. phi_bind; phi_leaf.
   - (* NMsg *) phi_bind; [apply phi_msg_body | phi_leaf].
